@@ -13,10 +13,12 @@ import (
 	"github.com/idena-network/idena-go/blockchain/types"
 	"github.com/idena-network/idena-go/blockchain/validation"
 	"github.com/idena-network/idena-go/common"
+	"github.com/idena-network/idena-go/core/appstate"
 	"github.com/idena-network/idena-go/core/state"
 	"pgregory.net/rapid"
 
 	"verifharness/internal/evid"
+	"verifharness/internal/kf"
 	"verifharness/internal/sim"
 )
 
@@ -160,6 +162,16 @@ type prefixItem struct {
 // the sender under test itself. The block builder orders by nonce, so only senders whose next nonce is below the nonce of
 // the tx under test (and pairwise different) qualify; same-sender txs shift the nonce of the tx under test.
 func (p *prog) drawPrefix(op *opSpec) []*prefixItem {
+	odds := p.chainOdds
+	if op.op == "terminate" {
+		odds = 25 + odds // dropping a contract in the block in which it was written to: the chain's natural last step
+	}
+	if op.target != nil && !op.target.dead && p.chance("chainShape", odds) {
+		if items := p.drawChain(op); len(items) > 0 {
+			op.shape = "chain"
+			return items
+		}
+	}
 	if p.chance("prefixNone", 50) {
 		return nil
 	}
@@ -249,6 +261,127 @@ func (p *prog) drawPrefix(op *opSpec) []*prefixItem {
 			off := place(op.sender)
 			items = append(items, &prefixItem{tx: p.mkSend(op.sender, p.actorAddr("prefixOwnSendTo"), sim.Dna(int64(1+p.draw("prefixOwnSendDna", 50))), off), shape: "same-sender-send"})
 		}
+	}
+	return items
+}
+
+// drawChain: SAME-CONTRACT CHAIN. 1-4 further steps on the very contract the tx under test addresses precede it in the
+// block (one VM and one environment serve the whole block, so whatever an earlier step left behind meets the later ones):
+// entries of the contract's own table, state-aware steps, wild steps, a SendTx funding the contract. They are submitted by
+// the sender under test itself (consecutive nonces) or by senders whose nonce lies below. 3 chains in 4 keep only steps
+// that would succeed when run one after the other on the parent state (steering by dry run: an earlier step that wrote
+// something, then the step under test), the others take the steps as drawn. A termination is mostly left to the end.
+func (p *prog) drawChain(op *opSpec) []*prefixItem {
+	c := op.target
+	want := 1 + p.draw("chainLen", 4)
+	savedLast, savedCtx, savedSelf := p.last, p.ctxAddrs, p.selfPicked
+	defer func() { p.last, p.ctxAddrs, p.selfPicked = savedLast, savedCtx, savedSelf }()
+	var items []*prefixItem
+	used := map[uint32]bool{}
+	offsets := map[int]int{}
+	top := p.nextNonce(op.sender)
+	admit := func(a *sim.Actor) bool {
+		if a.Idx == op.sender.Idx {
+			return !op.pinNonce
+		}
+		n := p.nextNonce(a) + uint32(offsets[a.Idx])
+		return n < top && !used[n]
+	}
+	place := func(a *sim.Actor) {
+		off := offsets[a.Idx]
+		offsets[a.Idx]++
+		if a.Idx == op.sender.Idx {
+			op.nonceOffset++
+		} else {
+			used[p.nextNonce(a)+uint32(off)] = true
+		}
+	}
+	s := p.A.ReadState()
+	fpg, netSize := nz(s.State.FeePerGas()), s.ValidatorsCache.NetworkSize()
+	hdr := &types.Header{ProposedHeader: &types.ProposedHeader{Height: p.A.Head().Height() + 1, Time: p.now(), ParentHash: p.A.Head().Hash()}}
+	var scratch *appstate.AppState
+	if p.chance("chainStepsThatSucceed", 75) {
+		scratch, _ = checkStateAfter(p.A, nil, hdr)
+	}
+	// CROWD: a quarter of the chains on an embedded contract are one entry of its table sent by several different senders
+	// (many depositors / voters / stakers act on the contract in the same block), then the step under test
+	var crowd []*sim.Actor
+	crowdEntry := 0
+	if c.emb != nil && p.chance("chainCrowd", 25) {
+		crowdEntry = p.draw("crowdEntry", len(c.emb.methods))
+		want = 2 + p.draw("crowdSize", 3)
+		for _, a := range p.senders {
+			if a.Idx != op.sender.Idx && admit(a) {
+				crowd = append(crowd, a)
+			}
+		}
+		for i := len(crowd) - 1; i > 0; i-- {
+			j := p.draw("crowdOrder", i+1)
+			crowd[i], crowd[j] = crowd[j], crowd[i]
+		}
+		if admit(op.sender) {
+			crowd = append(crowd, op.sender)
+		}
+		if len(crowd) < 2 {
+			crowd = nil
+		} else {
+			evid.Count("chain.gen.crowd")
+		}
+	}
+	for tries := 0; len(items) < want && tries < 8*want; tries++ {
+		var pop *opSpec
+		if crowd != nil {
+			if tries >= len(crowd) {
+				break
+			}
+			if !admit(crowd[tries]) {
+				continue
+			}
+			p.selfPicked = false
+			pop = p.tableEntry(c, crowdEntry, crowd[tries])
+		} else {
+			pop = p.chainStep(c)
+		}
+		if pop.special == "fund" && pop.target == c && pop.amount != nil {
+			if admit(pop.sender) {
+				off := offsets[pop.sender.Idx]
+				place(pop.sender)
+				items = append(items, &prefixItem{tx: p.mkSend(pop.sender, c.addr, pop.amount, off), shape: "same-contract-funding"})
+				if scratch != nil {
+					scratch.State.AddBalance(c.addr, pop.amount)
+				}
+			}
+			continue
+		}
+		if pop.special != "" || pop.target != c {
+			continue
+		}
+		if pop.op == "terminate" && !p.chance("chainEarlyTermination", 25) {
+			continue
+		}
+		if crowd == nil && (!admit(pop.sender) || admit(op.sender) && p.chance("chainOwnSender", 30)) {
+			// the sender under test submits this step as well
+			if !admit(op.sender) {
+				continue
+			}
+			pop.sender = op.sender
+		}
+		pop.nonceOffset = offsets[pop.sender.Idx]
+		tx, _ := p.build(pop)
+		if scratch != nil {
+			dr, err := dryRun(p.A, scratch, tx, hdr, gasLimitOf(netSize, fpg, tx))
+			if err != nil || !dr.success {
+				if err == nil && tx.Type == types.CallContractTx && tx.AmountOrZero().Sign() > 0 {
+					// undo the escrow the dry run made on the scratch state
+					scratch.State.AddBalance(pop.sender.Addr, tx.AmountOrZero())
+					scratch.State.SubBalance(c.addr, tx.AmountOrZero())
+				}
+				evid.Count("chain.gen.candidate-would-fail")
+				continue
+			}
+		}
+		place(pop.sender)
+		items = append(items, &prefixItem{tx: tx, op: pop, shape: "same-contract"})
 	}
 	return items
 }
@@ -421,14 +554,73 @@ func (p *prog) experiment(op *opSpec) {
 	if err != nil {
 		t.Fatalf("HARNESS: replay failed: %v", err)
 	}
+	blockDesc := func() string {
+		d := p.describe(op, tx, gasClass)
+		for i, x := range prefixTxs {
+			from, _ := types.Sender(x)
+			to, what := "-", ""
+			if x.To != nil {
+				to = p.w.Name(*x.To)
+			}
+			for _, it := range accepted {
+				if it.tx.Hash() == x.Hash() {
+					what = it.shape
+					if it.op != nil {
+						what += fmt.Sprintf(" %s %s method=%q args=%s", it.op.kind, it.op.op, it.op.method, it.op.argClass)
+					}
+				}
+			}
+			d += fmt.Sprintf("\n  preceded in the block by #%d: %s %s -> %s amount=%v nonce=%d (%s)", i, sim.TxTypeNames[x.Type], p.w.Name(from), to, x.Amount, x.AccountNonce, what)
+		}
+		return d
+	}
+	// A refusal "invalid receipt cid" of a block whose transactions do not execute to the same receipts every time is the
+	// recorded finding c15.same-block-store-writes-iterated-in-map-order (decided by re-executing the block's txs on fresh
+	// check states of the parent, which the main replica still holds at both refusal sites); any other refusal fails the case.
+	knownRefusal := func(who string, err error) bool {
+		if !strings.Contains(err.Error(), "invalid receipt cid") {
+			return false
+		}
+		seen := map[string]bool{}
+		for i := 0; i < 16; i++ {
+			cs, e := p.A.AppState.ForCheck(p.A.Chain.Head.Height())
+			if e != nil {
+				return false
+			}
+			recs, e := p.A.Chain.VerifProcessTxs(cs, b1.Body.Transactions, b1.Header)
+			if e != nil {
+				return false
+			}
+			var all []byte
+			for _, r := range recs {
+				rb, _ := r.ToBytes()
+				all = append(append(all, rb...), 0xff)
+			}
+			seen[string(all)] = true
+		}
+		if len(seen) < 2 {
+			return false
+		}
+		if kf.Report(t, "C15", "c15.same-block-store-writes-iterated-in-map-order", "block refused by %s (%v): 16 executions of its transactions on the same parent state gave %d different receipt lists\n  tx: %s", who, err, len(seen), blockDesc()) {
+			evid.Count("block.known-finding.receipts-differ-between-executions")
+			return true
+		}
+		return false
+	}
 	if err := with.AddBlock(b1); err != nil {
-		t.Fatalf("block with the contract tx refused by its own builder: %v\n  tx: %s", err, p.describe(op, tx, gasClass))
+		if knownRefusal("its own builder", err) {
+			return
+		}
+		t.Fatalf("block with the contract tx refused by its own builder: %v\n  tx: %s", err, blockDesc())
 	}
 	if err := without.AddBlock(b0); err != nil {
 		t.Fatalf("block without the tx refused: %v", err)
 	}
 	if err := p.A.AddBlock(b1); err != nil {
-		t.Fatalf("block with the contract tx refused by a second replica: %v\n  tx: %s", err, p.describe(op, tx, gasClass))
+		if knownRefusal("a second replica", err) {
+			return
+		}
+		t.Fatalf("block with the contract tx refused by a second replica: %v\n  tx: %s", err, blockDesc())
 	}
 	rec := with.Chain.GetReceipt(tx.Hash())
 	if rec == nil {
@@ -488,6 +680,70 @@ func (p *prog) experiment(op *opSpec) {
 		evid.Count(fmt.Sprintf("block.new-distinct-wasm-codes=%d", newCodes))
 	}
 	evid.Count(fmt.Sprintf("block.txs=%d", n1))
+	// same-contract chains: which (earlier step, step under test) pairs on one contract shared a block, with outcomes
+	chainLen := 0
+	crowdOf := map[string]map[int]bool{} // method -> senders whose earlier step with it succeeded
+	for _, x := range prefixTxs {
+		for _, it := range accepted {
+			if it.tx.Hash() != x.Hash() || it.shape != "same-contract" || it.op == nil {
+				continue
+			}
+			r := without.Chain.GetReceipt(x.Hash())
+			if r == nil {
+				continue
+			}
+			chainLen++
+			outc := func(ok bool) string {
+				if ok {
+					return "ok"
+				}
+				return "fail"
+			}
+			evid.Count(fmt.Sprintf("chain|%s|%s:%s>%s:%s", kindLabel, it.op.method, outc(r.Success), op.method, outc(rec.Success)))
+			if r.Success {
+				if crowdOf[it.op.method] == nil {
+					crowdOf[it.op.method] = map[int]bool{}
+				}
+				crowdOf[it.op.method][it.op.sender.Idx] = true
+			}
+			if r.Success && rec.Success {
+				if op.op == "terminate" {
+					evid.Count("chain.successful-step-then-successful-termination-of-the-same-contract")
+				} else {
+					evid.Count("chain.successful-step-then-successful-step-on-the-same-contract")
+				}
+			}
+		}
+	}
+	for _, m := range []string{"deposit", "sendVoteProof", "sendVote", "addStake", "send", "add", "transfer", "push"} {
+		if n := len(crowdOf[m]); n >= 2 {
+			evid.Count(fmt.Sprintf("chain.crowd|%s|%s by %d senders>%s:success=%v", kindLabel, m, n, op.method, rec.Success))
+			evid.Count("chain.crowd.blocks")
+		}
+	}
+	if chainLen > 0 {
+		evid.Count(fmt.Sprintf("chain.earlier-steps-on-the-same-contract=%d", chainLen))
+		evid.Count("chain.blocks")
+	}
+	// what the declared maximum fee holds above the intrinsic fee: whole gas units, or a remainder inside one unit; and
+	// whether the execution used up everything the fee buys
+	if fpg.Sign() > 0 {
+		if diff := new(big.Int).Sub(tx.MaxFeeOrZero(), fee.CalculateFee(netSize, fpg, tx)); diff.Sign() >= 0 {
+			rem := new(big.Int).Mod(diff, fpg)
+			part := "upper-half"
+			switch {
+			case rem.Sign() == 0:
+				part = "none"
+			case new(big.Int).Mul(rem, big.NewInt(2)).Cmp(fpg) < 0:
+				part = "lower-half"
+			}
+			used := "gas-left"
+			if gasLimit < 0 || rec.GasUsed >= uint64(gasLimit) {
+				used = "gas-exhausted"
+			}
+			evid.Count("fee.partial-gas-unit." + part + "." + used)
+		}
+	}
 	if drain {
 		evid.Count("block.drain.tx-included")
 	}
@@ -587,6 +843,9 @@ func (p *prog) experiment(op *opSpec) {
 	}
 	if nontrivial {
 		d := fmt.Sprintf("%s|%s|%s|gas=%s|pay=%s|args=%s", p.profile, key, outcome, gasClass, pc, op.argClass)
+		if chainLen > 0 {
+			d += "|after-steps-on-the-same-contract"
+		}
 		evid.NonTrivial(d)
 		evid.Sample(outcome, d)
 		evid.Count("nontrivial." + outcome)
@@ -602,7 +861,11 @@ func (p *prog) describe(op *opSpec, tx *types.Transaction, gasClass string) stri
 		p.profile, op.kind, op.op, op.method, op.argClass, op.sender, stateName(p.A.ReadState().State.GetIdentityState(op.sender.Addr)), to, tx.Amount, tx.MaxFee, gasClass, tx.Tips, tx.AccountNonce, len(tx.Payload), op.smart)
 }
 
-func runProgram(t *rapid.T, profile string) {
+func runProgram(t *rapid.T, profile string) { runProgramMode(t, profile, false) }
+
+// runProgramMode: chains = a program in which most steps on a live contract share their block with earlier steps on the
+// same contract (drawChain), and month-long clock jumps (time locks expire, pending votings go stale) are more frequent.
+func runProgramMode(t *rapid.T, profile string, chains bool) {
 	params := sim.GenParams(t, 6, 8)
 	params.Profile = profile
 	params.CeremonyIn = 600000000 // no validation ceremony within reach of the program (incl. its 31-day jumps)
@@ -632,7 +895,11 @@ func runProgram(t *rapid.T, profile string) {
 	if !A.CanPropose() {
 		t.Fatalf("HARNESS: god cannot propose")
 	}
-	p := &prog{t: t, w: w, A: A, profile: profile, senders: w.Actors[1:params.NActors], knownCodes: map[common.Hash]bool{}}
+	p := &prog{t: t, w: w, A: A, profile: profile, senders: w.Actors[1:params.NActors], knownCodes: map[common.Hash]bool{}, chainOdds: 8}
+	monthJumpOdds := 1
+	if chains {
+		p.chainOdds, monthJumpOdds = 70, 5
+	}
 	focuses := []string{"mix", "voting", "wallets", "voting", "voting"}
 	if profile == "v12" {
 		focuses = append(focuses, "wasm", "wasm", "mix")
@@ -640,6 +907,9 @@ func runProgram(t *rapid.T, profile string) {
 	p.focus = focuses[rapid.IntRange(0, len(focuses)-1).Draw(t, "focus")]
 	p.calm = rapid.IntRange(0, 9).Draw(t, "calm") < 4
 	evid.Count(fmt.Sprintf("case.profile.%s.focus.%s.calm=%v", profile, p.focus, p.calm))
+	if chains {
+		evid.Count("case.same-contract-chains-program")
+	}
 	if os.Getenv("C15_TRACE") != "" {
 		fmt.Fprintf(os.Stderr, "TRACE ==== case profile=%s focus=%s calm=%v actors=%d\n", profile, p.focus, p.calm, params.NActors)
 	}
@@ -685,7 +955,7 @@ func runProgram(t *rapid.T, profile string) {
 		default:
 			p.experiment(op)
 		}
-		if rapid.IntRange(0, 99).Draw(t, "monthJump") == 57 {
+		if j := rapid.IntRange(0, 99).Draw(t, "monthJump"); j >= 57 && j < 57+monthJumpOdds {
 			w.Advance(31 * 24 * time.Hour) // lets a pending voting go stale
 			evid.Count("step.month-jump")
 		}
@@ -699,4 +969,13 @@ func TestContractProgramsV12(t *testing.T) {
 
 func TestContractProgramsV9(t *testing.T) {
 	rapid.Check(t, func(t *rapid.T) { runProgram(t, "v9") })
+}
+
+// Same-contract chains: programs in which most blocks hold several steps on one contract (see drawChain).
+func TestSameContractChainsV12(t *testing.T) {
+	rapid.Check(t, func(t *rapid.T) { runProgramMode(t, "v12", true) })
+}
+
+func TestSameContractChainsV9(t *testing.T) {
+	rapid.Check(t, func(t *rapid.T) { runProgramMode(t, "v9", true) })
 }
